@@ -296,6 +296,8 @@ void Archiver::ArchiveObjectPointer(void*& ptr)
             // init the pointer with NULL until we can fix it
             ptr = nullptr;
 
+            CheckIndex(index);
+
             fixup = new pointer_fixup_t;
             fixup->ptr = &ptr;
             fixup->index = index;
@@ -324,6 +326,7 @@ void Archiver::ArchiveObjectPosition(void* obj)
     if (archivemode == archiveMode_e::Read)
     {
         ArchivePosition(index);
+        CheckIndex(index);
         classpointerList.AddObjectAt(index, obj);
     }
     else
@@ -354,6 +357,8 @@ void Archiver::ArchiveSafePointer(SafePtrBase& ptr)
         {
             // init the pointer with NULL until we can fix it
             ptr.InitSafePtr(nullptr);
+
+            CheckIndex(index);
 
             // Add new fixup
             fixup = new pointer_fixup_t;
@@ -408,6 +413,7 @@ void Archiver::ArchiveObject(Class& obj)
 
         uint32_t index;
         ArchiveUInt32(index);
+        CheckIndex(index);
         const std::streampos objstart = readStream->tellg();
         // archive the class instance
         obj.Archive(*this);
@@ -479,6 +485,7 @@ Class* Archiver::ReadObject()
 
     uint32_t index;
     ArchiveUInt32(index);
+    CheckIndex(index);
     const std::streampos objstart = readStream->tellg();
 
     Class* const obj = cls->createInstance();
@@ -604,6 +611,14 @@ void Archiver::CheckRead()
 
     if (!readStream->good()) {
         throw ArchiveErrors::ReadStreamFail();
+    }
+}
+
+void Archiver::CheckIndex(uint32_t index) const
+{
+    // the object table was sized from the header: an index outside it cannot come from a valid archive
+    if (index == 0 || index > classpointerList.NumObjects()) {
+        throw ArchiveErrors::InvalidObjectIndex(index);
     }
 }
 
@@ -733,6 +748,25 @@ const char* ArchiveErrors::ObjectClassError::what() const noexcept
 {
     if (!filled()) {
         fill("Archive has '" + className + "'" + " object, but was expecting a '" + expectedClassName + "' object.");
+    }
+
+    return Messageable::what();
+}
+
+ArchiveErrors::InvalidObjectIndex::InvalidObjectIndex(uint32_t indexVal)
+    : index(indexVal)
+{
+}
+
+uint32_t ArchiveErrors::InvalidObjectIndex::GetIndex() const
+{
+    return index;
+}
+
+const char* ArchiveErrors::InvalidObjectIndex::what() const noexcept
+{
+    if (!filled()) {
+        fill("Archive refers to object index " + str(index) + ", which is outside the object table");
     }
 
     return Messageable::what();
